@@ -40,6 +40,21 @@ class NonFinite(Exception):
 
 
 _cur = None
+ACTIVE_KNOWN = None  # set of known-finding ids listed as open in /verif/known_findings.json (loaded lazily)
+
+
+def active_known():
+    global ACTIVE_KNOWN
+    if ACTIVE_KNOWN is None:
+        import json
+        import os
+
+        p = os.path.join(os.path.dirname(os.path.dirname(os.path.abspath(__file__))), "known_findings.json")
+        try:
+            ACTIVE_KNOWN = {e["id"] for e in json.load(open(p)).get("findings", []) if e.get("status") == "open"}
+        except Exception:  # noqa: BLE001
+            ACTIVE_KNOWN = set()
+    return ACTIVE_KNOWN
 
 
 def cur():
@@ -1150,6 +1165,8 @@ class Explorer(BaseExplorer):
             self.stats["checks_trivial"] = self.stats.get("checks_trivial", 0) + 1
             return True
         extra = [z3.Not(prop)]
+        if known is not None and known[0] not in active_known():
+            known = None  # a region only suppresses what is listed as an open finding in known_findings.json
         if known is not None:
             kid, region = known
             if type(region) is bool:
@@ -1530,7 +1547,7 @@ class ReplayExplorer(BaseExplorer):
         ok = self._ground(prop)
         if not ok:
             in_known = None
-            if known is not None:
+            if known is not None and known[0] in active_known():
                 kid, region = known
                 if self._ground(region):
                     in_known = kid
